@@ -1494,8 +1494,10 @@ func (c *Curve[B, S]) scalarMulFakeGLV(Q *AffinePoint[B], s *emulated.Element[S]
 	tableR[0] = addFn(tableR[0], Acc)
 	Acc = c.Select(s2bits[0], Acc, tableR[0])
 
+	var skip frontend.Variable
 	if cfg.CompleteArithmetic {
-		Acc = c.Select(c.api.Or(selector1, selector2), tableR[2], Acc)
+		skip = c.api.Or(selector1, selector2)
+		Acc = c.Select(skip, tableR[2], Acc)
 	}
 	// we added [3]R at the last iteration so the result should be
 	// 		Acc = [s1]Q + [s2]R + [3]R
@@ -1505,6 +1507,15 @@ func (c *Curve[B, S]) scalarMulFakeGLV(Q *AffinePoint[B], s *emulated.Element[S]
 	// 		    = [3]R
 	c.AssertIsEqual(Acc, tableR[2])
 
+	if cfg.CompleteArithmetic {
+		// when s=0 or Q=(0,0) the check above is skipped: the result is (0,0)
+		// whatever the hint returned.
+		zero := c.baseApi.Zero()
+		return &AffinePoint[B]{
+			X: *c.baseApi.Select(skip, zero, R[0]),
+			Y: *c.baseApi.Select(skip, zero, R[1]),
+		}
+	}
 	return &AffinePoint[B]{
 		X: *R[0],
 		Y: *R[1],
